@@ -62,6 +62,33 @@ def _warned_targets(warnings_text):
     return out
 
 
+def _from_rst(*nodes_):
+    """True when one of the nodes was produced by the nested reStructuredText parse of `eval-rst` (the driver
+    marks those nodes, see `_install_origin_marks`).  Such failures get their own signature family: the tags
+    involved are arbitrary there (the rST snippet is a document of its own, numbered separately)."""
+    return any(getattr(n, "_c03_origin", None) == "eval-rst" for n in nodes_ if n is not None)
+
+
+def _is_math_anchor(node):
+    """Sphinx equation anchor: the `target` MyST's add_math_target puts in front of a labelled math_block (parse
+    stage) or the math_block itself once docutils has propagated the id to it (full stage)."""
+    try:
+        from docutils.nodes import make_id
+        t = _tag(node)
+        if t == "math_block" and node.get("label") is not None:
+            return make_id("equation-%s" % node["label"]) in node.get("ids", [])
+        if t == "target" and node.parent is not None and not node.get("names"):
+            sibs = node.parent.children
+            k = next((n for n, c in enumerate(sibs) if c is node), None)
+            if k is not None and k + 1 < len(sibs):
+                nx = sibs[k + 1]
+                if _tag(nx) == "math_block" and nx.get("label") is not None:
+                    return make_id("equation-%s" % nx["label"]) in node.get("ids", [])
+    except Exception:
+        pass
+    return False
+
+
 def _short(node, limit=160):
     try:
         s = node.shortrepr() if hasattr(node, "shortrepr") else repr(node)
@@ -89,58 +116,54 @@ def check_tree(doc, stage, warnings_text=""):
 
     # ---- clause 1: one parent, one occurrence (Text nodes included); builds the list of elements
     seen = {}                 # id(obj) -> obj (keeps the objects alive, so id() cannot be recycled)
-    elements = []             # every element once, document order
+    elements = []             # every element once
     if getattr(doc, "parent", None) is not None:
         fail("parent-pointer:" + _tag(doc), "root has a parent", _short(doc))
     seen[id(doc)] = doc
-    elements.append(doc)
+    lister = {id(doc): None}  # id(obj) -> the node whose child list contains it (the structural parent)
     stack = [doc]
     while stack:
         p = stack.pop()
+        elements.append(p)    # pop order = document order; every element is pushed exactly once
         kids = list(getattr(p, "children", ()) or ())
+        fresh = []
         for c in kids:
             if id(c) in seen:
                 fail("occurs-once:" + _tag(c), f"the same {_tag(c)} object is reachable twice (second time under "
                      f"{_tag(p)})", {"node": _short(c), "second_parent": _path(p)})
                 continue
             seen[id(c)] = c
+            lister[id(c)] = p
             if getattr(c, "parent", None) is not p:
                 fail("parent-pointer:" + _tag(c), f"{_tag(c)} is a child of {_tag(p)} but its parent pointer is "
                      f"{_tag(getattr(c, 'parent', None)) if getattr(c, 'parent', None) is not None else None}",
                      {"node": _short(c), "listed_under": _path(p)})
             if hasattr(c, "children") and not isinstance(c, str):
-                elements.append(c)
-        for c in reversed(kids):
-            if hasattr(c, "children") and not isinstance(c, str) and seen.get(id(c)) is c:
-                stack.append(c)
-    # the stack visit above may push a shared node twice (once per occurrence) - dedupe element list
-    uniq, es = set(), []
-    for e in elements:
-        if id(e) not in uniq:
-            uniq.add(id(e))
-            es.append(e)
-    elements = es
+                fresh.append(c)
+        stack.extend(reversed(fresh))       # a node reached a second time is reported, not descended into again
 
     # ---- clauses 2, 3: sections and transitions
     for e in elements:
         t = _tag(e)
         if t == "section":
-            par = e.parent if e.parent is not None else None
-            # use the structural parent (the node that lists it) when the pointer is broken: found below
+            par = lister.get(id(e))        # the node that lists it (not the pointer, which clause 1 checks)
             ptag = _tag(par) if par is not None else "None"
             if ptag not in ("document", "section"):
-                fail("section:under-" + ptag, f"section node directly under {ptag}", _path(e))
+                fail("section:under-container:eval-rst" if _from_rst(e) else "section:under-" + ptag,
+                     f"section node directly under {ptag}", _path(e))
             if not e.children or _tag(e.children[0]) != "title":
-                fail("section:no-title", "section whose first child is " +
+                fail("section:no-title" + (":eval-rst" if _from_rst(e) else ""), "section whose first child is " +
                      (_tag(e.children[0]) if e.children else "missing (empty section)"), _path(e))
         elif t == "transition":
-            par = e.parent
+            par = lister.get(id(e))
             ptag = _tag(par) if par is not None else "None"
             if ptag not in ("document", "section"):
-                fail("transition:inside-container", f"transition node directly under {ptag} (stage {stage})",
-                     _path(e))
+                fail("transition:inside-container" + (":eval-rst" if _from_rst(e) else ""),
+                     f"transition node directly under {ptag} (stage {stage})", _path(e))
 
     # ---- clause 4: identifiers unique
+    rst_ids = getattr(doc, "_c03_rst_ids", None) or ()          # id strings numbered by eval-rst's own document
+    stripped_ids = getattr(doc, "_c03_stripped_ids", None) or ()  # ids inside the docinfo Sphinx removed
     owner = {}
     for e in elements:
         try:
@@ -149,13 +172,19 @@ def check_tree(doc, stage, warnings_text=""):
             ids = []
         for i in ids:
             if i in owner and owner[i] is not e:
-                a, b = sorted((_tag(owner[i]), _tag(e)))
-                fail(f"ids:duplicate:{a}+{b}", f"id {i!r} is carried by two nodes ({_tag(owner[i])} and {_tag(e)})",
+                o = owner[i]
+                if _from_rst(o, e) or i in rst_ids:
+                    kinds = "eval-rst"
+                else:
+                    ma, mb = _is_math_anchor(o), _is_math_anchor(e)
+                    if ma != mb:
+                        kinds = "math-label+other"
+                    else:
+                        kinds = "+".join(sorted((_tag(o), _tag(e))))
+                fail(f"ids:duplicate:{kinds}", f"id {i!r} is carried by two nodes ({_tag(owner[i])} and {_tag(e)})",
                      {"id": i, "first": _path(owner[i]), "second": _path(e)})
             else:
                 owner.setdefault(i, e)
-        if len(set(ids)) != len(ids):
-            fail(f"ids:duplicate:{_tag(e)}+{_tag(e)}", f"id listed twice on one {_tag(e)}", {"ids": list(ids)})
 
     # ---- clause 5: internal links resolve
     warned = None
@@ -167,12 +196,16 @@ def check_tree(doc, stage, warnings_text=""):
                 if warned is None:
                     warned = _warned_targets(warnings_text)
                 if rid not in warned:
-                    fail("refid:dangling:" + t, f"{t} refid {rid!r} is not the id of any node and no "
+                    ctxt = "eval-rst" if (_from_rst(e) or rid in rst_ids) else (
+                        "docinfo-stripped" if rid in stripped_ids else t)
+                    fail("refid:dangling:" + ctxt, f"{t} refid {rid!r} is not the id of any node and no "
                          "'target not found' warning names it", {"refid": rid, "at": _path(e)})
         if t in ("footnote", "citation"):
             for b in e.get("backrefs", []):
                 if b not in owner:
-                    fail("backref:dangling:" + t, f"{t} backref {b!r} is not the id of any node",
+                    ctxt = "eval-rst" if (_from_rst(e) or b in rst_ids) else (
+                        "docinfo-stripped" if b in stripped_ids else t)
+                    fail("backref:dangling:" + ctxt, f"{t} backref {b!r} is not the id of any node",
                          {"backref": b, "at": _path(e)})
 
     # ---- clause 6: table shape
@@ -203,7 +236,7 @@ def check_tree(doc, stage, warnings_text=""):
                     spans.append((w, int(ent.get("morerows", 0) or 0)))
                     width += w
                 if not ok or width != len(free):
-                    fail("table:row-cells",
+                    fail("table:row-cells" + (":eval-rst" if _from_rst(e) else ""),
                          f"row {ri} of {_tag(part)} has {width} cell(s) (+{cols - len(free)} spanned from above) "
                          f"but the table declares {cols} column(s)", _path(row))
                 nxt = [max(0, c - 1) for c in carry]
@@ -220,7 +253,7 @@ def check_tree(doc, stage, warnings_text=""):
         for e in elements:
             if _tag(e) == "footnote":
                 if not e.children or _tag(e.children[0]) != "label":
-                    fail("footnote:no-label-first", "footnote whose first child is " +
+                    fail("footnote:no-label-first" + (":eval-rst" if _from_rst(e) else ""), "footnote whose first child is " +
                          (_tag(e.children[0]) if e.children else "missing (empty footnote)"),
                          {"names": list(e.get("names", [])), "ids": list(e.get("ids", [])), "at": _path(e)})
     return fails
@@ -257,8 +290,10 @@ def _exception_failure(exc, stage):
     while tb is not None:
         frames.append(tb.tb_frame)
         tb = tb.tb_next
-    site = None
+    site = None          # innermost frame inside the libraries: module.Class.function
+    transform = None     # innermost docutils Transform whose apply() is on the stack: module.Class
     through_visit_transition = False
+    through_promote_title = False
     for fr in frames:
         mod = fr.f_globals.get("__name__", "") or ""
         code = fr.f_code
@@ -266,9 +301,19 @@ def _exception_failure(exc, stage):
             qn = getattr(code, "co_qualname", code.co_name)
             qn = qn.replace(".<locals>", "")
             site = f"{mod}.{qn}"
+            if code.co_name == "apply":
+                slf = fr.f_locals.get("self")
+                try:
+                    from docutils.transforms import Transform
+                    if isinstance(slf, Transform):
+                        transform = f"{type(slf).__module__}.{type(slf).__name__}"
+                except Exception:
+                    pass
         fn = code.co_filename.replace("\\", "/")
         if fn.endswith("docutils/transforms/misc.py") and code.co_name == "visit_transition":
             through_visit_transition = True
+        if fn.endswith("docutils/transforms/frontmatter.py") and code.co_name == "promote_title":
+            through_promote_title = True
     cls = type(exc).__name__
     tail = "".join(_tb.format_exception(type(exc), exc, exc.__traceback__))[-900:]
     if through_visit_transition and isinstance(exc, AssertionError):
@@ -276,8 +321,16 @@ def _exception_failure(exc, stage):
                 "what": f"{cls} in docutils Transitions.visit_transition: a transition that is not directly under "
                         f"the document or a section reached the transform pipeline (stage {stage})",
                 "detail": {"exception": cls, "site": site, "traceback_tail": tail}}
-    return {"signature": f"exception:{cls}:{site or 'unknown'}",
-            "what": f"uncaught {cls} at {site}: {str(exc)[:200]}",
+    if through_promote_title and isinstance(exc, AssertionError) and site and site.endswith("promote_title"):
+        return {"signature": "section:no-title",
+                "what": f"{cls} in docutils DocTitle (TitlePromoter.promote_title): the lone top-level section "
+                        f"does not start with its title (stage {stage})",
+                "detail": {"exception": cls, "site": site, "traceback_tail": tail}}
+    if site is None:
+        raise HarnessError(f"exception outside the implementation: {exc!r}") from exc
+    return {"signature": f"exception:{cls}:{transform or site}",
+            "what": f"uncaught {cls} at {site}" + (f" (transform {transform})" if transform else "") +
+                    f": {str(exc)[:200]}",
             "detail": {"exception": cls, "site": site, "traceback_tail": tail}}
 
 
@@ -359,20 +412,92 @@ class _plain_docutils:
         directives._directives, roles._roles = self.saved
 
 
+_MARKS_INSTALLED = False
+
+
+def _install_origin_marks():
+    """Observation only: the nodes that `render_restructuredtext` (the `eval-rst` directive) moves from its scratch
+    document into the tree get a Python attribute `_c03_origin = "eval-rst"`, so that the walker can name the
+    call site in the signature.  The original method is called unchanged."""
+    global _MARKS_INSTALLED
+    if _MARKS_INSTALLED:
+        return
+    from myst_parser.mdit_to_docutils.base import DocutilsRenderer
+    orig = DocutilsRenderer.render_restructuredtext
+    if getattr(orig, "_c03_wrapped", False):
+        _MARKS_INSTALLED = True
+        return
+
+    def render_restructuredtext(self, token):
+        cur = self.current_node
+        before = {id(c) for c in cur.children}
+        try:
+            return orig(self, token)
+        finally:
+            rst_ids = getattr(self.document, "_c03_rst_ids", None)
+            if rst_ids is None:
+                rst_ids = set()
+                try:
+                    self.document._c03_rst_ids = rst_ids
+                except Exception:
+                    pass
+            for c in cur.children:
+                if id(c) in before:
+                    continue
+                for n in c.findall():
+                    try:
+                        n._c03_origin = "eval-rst"
+                    except Exception:
+                        pass
+                    if hasattr(n, "get") and not isinstance(n, str):
+                        rst_ids.update(n.get("ids", ()))
+
+    render_restructuredtext._c03_wrapped = True
+    render_restructuredtext.__wrapped__ = orig
+    DocutilsRenderer.render_restructuredtext = render_restructuredtext
+    _MARKS_INSTALLED = True
+
+
+def _install_docinfo_listener(drv):
+    """Observation only: Sphinx's MetadataCollector removes the `docinfo` node (a leading field list) from every
+    doctree at the `doctree-read` event.  Links into that removed subtree are left dangling by Sphinx itself; the
+    ids that were inside are recorded (before the collector runs) so the walker can tell this inherited
+    behaviour apart from links MyST leaves dangling."""
+    if getattr(drv, "_c03_listener", False):
+        return
+
+    def on_doctree_read(app, doctree):
+        ids = set()
+        try:
+            for di in doctree.children:
+                if _tag(di) == "docinfo":
+                    for n in di.findall():
+                        if hasattr(n, "get") and not isinstance(n, str):
+                            ids.update(n.get("ids", ()))
+            doctree._c03_stripped_ids = ids
+        except Exception:
+            pass
+
+    drv.app.connect("doctree-read", on_doctree_read, priority=0)
+    drv._c03_listener = True
+
+
 def produce(case):
     """Run the implementation on a normalised case.  Returns (document, warnings_text); raises what it raises."""
     from gen import c02_lib as L
+    _install_origin_marks()
     text, mode, exts, kw = case["text"], case["mode"], case["exts"], case["kw"]
-    if case["backend"] == "docutils":
-        f = L.docutils_parse if case["stage"] == "parse" else L.docutils_publish
-        with _plain_docutils():
-            return f(text, mode, exts, **kw)
     try:
         cfg = L.make_config(mode, exts, **kw)
     except Exception as e:
         raise HarnessError(f"configuration rejected: {e!r}") from e
+    if case["backend"] == "docutils":
+        f = L.docutils_parse if case["stage"] == "parse" else L.docutils_publish
+        with _plain_docutils():
+            return f(text, mode, exts, **kw)
     _pristine_registries()          # snapshot before the application exists
     drv = L.SphinxDriver.get()
+    _install_docinfo_listener(drv)
     return (drv.parse if case["stage"] == "parse" else drv.publish)(text, cfg)
 
 
@@ -383,8 +508,12 @@ def run_case(case, want_obs=False):
     try:
         doc, warn = produce(case)
     except BaseException as exc:  # noqa: BLE001 - SystemMessage, AssertionError, RecursionError ... all count
-        if isinstance(exc, (KeyboardInterrupt, SystemExit, MemoryError)):
+        if isinstance(exc, (KeyboardInterrupt, SystemExit, MemoryError, HarnessError)):
             raise
+        if isinstance(exc, FileNotFoundError) and str(getattr(exc, "filename", "")).endswith(".doctree"):
+            # the in-process Sphinx driver never pickles doctrees; resolvers that re-read them (numref) cannot
+            # run here: a limit of the harness, not an observation about the implementation
+            return ([], ["harness-limit:doctree-pickle"]) if want_obs else []
         fails = [_exception_failure(exc, case["stage"])]
         return (fails, obs) if want_obs else fails
     fails = check_tree(doc, case["stage"], warn)
@@ -452,7 +581,7 @@ class DocGen:
             return self.pick([f"[x][{i}]", f"[{i}]", f"[{i}][]"])
         if k < 0.82:
             self.tags.add("role")
-            return self.pick([f"{{ref}}`{i}`", f"{{eq}}`{i}`", f"{{numref}}`{i}`", "{math}`x`", f"{{ref}}`t <{i}>`",
+            return self.pick([f"{{ref}}`{i}`", f"{{eq}}`{i}`", "{math}`x`", f"{{ref}}`t <{i}>`",
                               "{abbr}`a (b)`", f"{{doc}}`{i}`", f"{{term}}`{i}`", "{unknownrole}`x`",
                               f"{{footcite}}`{i}`", f"{{any}}`{i}`", f"{{myst:ref}}`{i}`"])
         if k < 0.87:
@@ -516,8 +645,8 @@ class DocGen:
 
     def mathlabel(self):
         self.tags.add("mathlabel")
-        return [self.pick(["$$x$$ ({})", "$$\nx\n$$ ({})", "$$ y $$ ({})"]).format(self.pick(["l", "l", "a", "b", "1"]))
-                ][0].split("\n")
+        lab = self.pick(["l", "l", "a", "b", "1"])
+        return self.pick(["$$x$$ ({})", "$$\nx\n$$ ({})", "$$ y $$ ({})"]).format(lab).split("\n")
 
     def leafdirective(self, depth):
         self.tags.add("leaf-directive")
@@ -565,8 +694,8 @@ class DocGen:
             return [self.pick([f"[{i}]: #{i}", f"[{i}]: other.md", f"[{i}]: https://e.x 't'"])]
         if k == 5:
             self.tags.add("html")
-            return [self.pick([f"<div id=\"{i}\">h</div>", "<hr>", f"<img src=\"u.png\" id=\"{i}\">",
-                               f"<div class=\"admonition note\" name=\"{i}\">\n<p>x</p>\n</div>"])] [0].split("\n")
+            return self.pick([f"<div id=\"{i}\">h</div>", "<hr>", f"<img src=\"u.png\" id=\"{i}\">",
+                              f"<div class=\"admonition note\" name=\"{i}\">\n<p>x</p>\n</div>"]).split("\n")
         if k == 6:
             return ["    indented code"]
         if k == 7:
@@ -797,7 +926,6 @@ KW_CHOICES = [
     ("title_to_header", [True]),
     ("all_links_external", [True]),
     ("fence_as_directive", [["note"]]),
-    ("attrs_image", [True]),
 ]
 
 
@@ -870,6 +998,31 @@ FIXED_WITNESSES = (
     + _w("# a\n\n[x](#a) [](#a) <project:#a> [x](other.md) [x](other.md#frag) [](#missing)\n")
     # headings in containers / jumping levels
     + _w("# a\n\n### c\n\n## b\n\n> # q\n\n- ## r\n")
+    # found by the generator on the unchanged tree (one minimal witness per signature, so that every run
+    # reproduces them):
+    # explicit id equal to an existing name: the duplicate-name system_message lands in front of the title
+    + _w("# a\n\n{#a}\n# b\n")
+    + _w("(x)=\n\n{#x}\n# h\n")       # the same, lone section: docutils DocTitle asserts on the missing title
+    # eval-rst: a separately numbered scratch document is spliced into the current node
+    + _w("- ```{eval-rst}\n  a\n  =\n  ```\n")
+    + _w("[x]{#a}\n\n```{eval-rst}\n.. _a:\n```\n")
+    + _w("```{eval-rst}\n.. [#] x\n```\n")
+    + _w("> ```{eval-rst}\n> a\n>\n> ----\n>\n> b\n> ```\n")
+    + _w("[^1]\n\n```{eval-rst}\n[#]_\n```\n")
+    + _w("1. # A\n2. ```{eval-rst}\n   .. _a:\n   ```\n\n[x]{#A}\n")
+    # Sphinx: empty block quote carrying an id (HandleCodeBlocks replaces it by its - no - children)
+    + _w("{#l}\n>\n", backends=("sphinx",))
+    # Sphinx: explicit id equal to a math label's equation id
+    + _w("(equation-l)=\n\n$$a$$ (l)\n", backends=("sphinx",))
+    # leading field list becomes docinfo (docutils) and is removed from the tree (Sphinx)
+    + _w(":f: [^l]\n\n[^l]: x\n")
+    + _w(":f: [x]{#l}\n\n[y](#l)\n")
+    # docutils transforms that discard a node which had received a propagated target id (DocInfo rebuilds the
+    # leading field list, Contents removes an empty table of contents)
+    + _w("(b)=\n:x: y\n\n[x](#b)\n")
+    + _w("(a)=\n```{contents}\n```\n\n[x](#a)\n")
+    # id on an anchor link that Sphinx resolves to an equation: the id disappears with the replaced node
+    + _w("[](#1){#1} [^1]\n\n> $$a$$ (1)\n", backends=("sphinx",))
 )
 
 
@@ -1013,6 +1166,60 @@ def replay(ctx, data):
     return 1
 
 
+# ------------------------------------------------------------------------------------------------ minimiser
+
+def minimise(case, signature, max_runs=1500):
+    """Greedy delta-debugging of a failing case's text (lines, then characters) keeping the same signature; also
+    tries to drop extensions and extra configuration.  Development aid (used by __main__ only)."""
+    case = normalise_case(case)
+    runs = [0]
+
+    def bad(c):
+        runs[0] += 1
+        try:
+            return any(f["signature"] == signature for f in run_case(c))
+        except HarnessError:
+            return False
+
+    if not bad(case):
+        return case
+
+    def shrink(units, join):
+        n = 2
+        while len(units) >= 1 and runs[0] < max_runs:
+            chunk = max(1, len(units) // n)
+            removed = False
+            k = 0
+            while k < len(units) and runs[0] < max_runs:
+                cand = units[:k] + units[k + chunk:]
+                if bad(dict(case, text=join(cand))):
+                    units = cand
+                    removed = True
+                else:
+                    k += chunk
+            if chunk == 1 and not removed:
+                break
+            if not removed:
+                n = min(len(units), n * 2) or 1
+        return units
+
+    lines = shrink(case["text"].split("\n"), "\n".join)
+    case = dict(case, text="\n".join(lines))
+    chars = shrink(list(case["text"]), "".join)
+    case = dict(case, text="".join(chars))
+    for e in list(case["exts"]):
+        c = dict(case, exts=[x for x in case["exts"] if x != e])
+        if bad(c):
+            case = c
+    for k in list(case["kw"]):
+        c = dict(case, kw={a: b for a, b in case["kw"].items() if a != k})
+        if bad(c):
+            case = c
+    if case["mode"] != "commonmark" and bad(dict(case, mode="commonmark")):
+        case = dict(case, mode="commonmark")
+    return case
+
+
 # ------------------------------------------------------------------------------------------------ own test
 
 class _DummyCtx:
@@ -1064,8 +1271,8 @@ def _main(argv):
     for sig in sorted(per_sig):
         print(f"{sig:<60} {per_sig[sig]:>6}")
         f = best[sig]
-        w = f["witness"]
-        print(f"      {w['backend']}/{w['stage']}/{w['mode']} kw={w['kw']} text={w['text']!r}"[:400])
+        w = minimise(f["witness"], sig) if os.environ.get("C03_MINIMISE", "1") != "0" else f["witness"]
+        print(f"      {w['backend']}/{w['stage']}/{w['mode']} kw={w['kw']} exts={w['exts']} text={w['text']!r}"[:600])
         print(f"      what: {f['what']}"[:300])
     print("histogram:")
     for k in sorted(ctx.counts):
